@@ -22,6 +22,8 @@ def specs_for(ctx):
         dict(D=3, target="ellipsoid", box="log", noise="declared", sigma=0.2, cons="band", options=dict(max_fun_evals=90, noise_final_samples=2), seed=sd + 4),
         dict(D=1, target="outside", box="sym", noise="det", cons="half", options=dict(max_fun_evals=40), seed=sd + 5),
         dict(D=2, target="sphere", box="sym", noise="auto", sigma=0.2, cons="band", options=dict(max_fun_evals=60, noise_final_samples=1), seed=sd + 6),
+        dict(D=2, target="outside", box="sym", noise="det", cons="tinyball", options=dict(max_fun_evals=70), seed=sd + 7),
+        dict(D=2, target="outside", box="sym", noise="declared", sigma=0.2, cons="tinyhalf", options=dict(max_fun_evals=70, noise_final_samples=2), seed=sd + 8),
     ]
     return specs
 
@@ -58,8 +60,47 @@ def infeasible_starts(ctx):
             if calls:
                 bad.append((D, kind, "target called"))
             n += 1
+    # near-boundary stream: half-space / ball constraints (real-valued and boolean, also reporting violations as TINY positive
+    # numbers) with x0 within a few search-mesh steps of the boundary on either side, linear and log boxes.  Property, both
+    # directions: cons(x0) > 0  ==>  ValueError and no target call;  accepted  ==>  the mesh-snapped start is feasible.
+    rng = ctx.rng
+    for i in range(120 if ctx.quick else 1200):
+        D = rng.choice([1, 2, 3])
+        t = rng.uniform(-1.5, 1.5)
+        scale = rng.choice([1.0, 1.0, 1e-9, 1e3])
+        boolean = rng.random() < 0.3
+        off = rng.choice([1, -1]) * rng.choice([1e-7, 3e-5, 2e-4, 6e-4, 1.2e-3, 5e-3])
+        logbox = rng.random() < 0.25
+        if logbox:
+            lb, ub, plb, pub = np.full(D, 0.01), np.full(D, 100.0), np.full(D, 0.1), np.full(D, 10.0)
+            t = 10.0 ** rng.uniform(-0.5, 0.5)
+            x0 = np.full(D, 1.0); x0[0] = t * (1.0 + off)
+        else:
+            lb, ub, plb, pub = np.full(D, -5.0), np.full(D, 5.0), np.full(D, -2.0), np.full(D, 2.0)
+            x0 = np.array([rng.uniform(-1, 1) for _ in range(D)]); x0[0] = t + off
+        raw = (lambda tt, sc: (lambda X: (np.atleast_2d(X)[:, 0] - tt) * sc))(t, scale)
+        cons = (lambda r: (lambda X: r(X) > 0))(raw) if boolean else raw
+        calls = []
+        fun = lambda x: calls.append(1) or float(np.sum(x ** 2))  # noqa: E731
+        infeasible = bool(np.atleast_1d(raw(x0))[0] > 0)
+        case = dict(D=D, x0=x0.tolist(), threshold=t, scale=scale, boolean=boolean, log=logbox)
+        try:
+            b = BADS(fun, x0.copy(), lb, ub, plb, pub, non_box_cons=cons, options=dict(display="off"))
+            if infeasible:
+                bad.append((case, "infeasible x0 accepted"))
+            else:
+                xs = b.var_transf.inverse_transf(np.atleast_2d(b.u))
+                if np.atleast_1d(raw(xs))[0] > 0:
+                    bad.append((case, "accepted but the mesh-snapped start %r is infeasible" % (xs.tolist(),)))
+        except ValueError:
+            pass
+        except Exception as ex:
+            bad.append((case, type(ex).__name__))
+        if calls:
+            bad.append((case, "target called"))
+        n += 1
     logging.disable(logging.NOTSET)
-    return n, bad
+    return n, bad[:5]
 
 
 def tie(ctx, broken):
